@@ -98,11 +98,14 @@ class H(Harness):
     ANCHOR_FILES = ['epydemic/generator.py', 'epydemic/standard_generators.py', 'epydemic/plc_generator.py', 'epydemic/coreperiphery_generator.py', 'epydemic/modular_generator.py', 'epydemic/networkexperiment.py']
     TIE_IMPORT = 'From EpyV Require Import Model.Shuffle Model.Generators Tie.C15.'
     CHECK_FN = 'EpyV.Tie.C15.check_case'
-    QUICK_N = 1360
-    THOROUGH_N = 13600
+    QUICK_N = 1610
+    THOROUGH_N = 16100
     CASE_TIMEOUT = 30
     ALLOWED_AXIOMS = set()
-    RULE = ('eight kinds in fixed proportion: quota (random set/mutate/generate/next programs, limit None or 0-3, with and without '
+    RULE = ('nine kinds in fixed proportion: reuse (ONE generator object of each class er/ba/plc/cp/mod/fixed driven through 2-4 (set, generate) '
+            'steps in which one parameter changes at a time, limit None or 1-3; with python random, numpy and the oracle seeded identically every network must equal '
+            'the one a fresh generator makes from the most recent parameters), '
+            ' quota (random set/mutate/generate/next programs, limit None or 0-3, with and without '
             'constructor parameters), fixed (random prototype, limit, copies mutated afterwards), er (N 1-30, phi in {0,1,dyadic} or kmean), '
             'ba (N 2-30, M 1..N-1), plc (N 2-12, exponent 2/2.5/3, cutoff 2/5/10/40, integers biased to small degrees), cp (N_core 1-10, '
             'N_per 1-14, densities incl. 0 and 1, rng.random scripted on multiples of 1/16 so r == phi occurs), mod (N_core 1-10, 0-4 '
@@ -120,8 +123,8 @@ class H(Harness):
     # ------------------------------------------------------------------ cases
     def gen_cases(self, tier, rnd, n):
         out = []
-        kinds = ['quota', 'fixed', 'er', 'ba', 'plc', 'cp', 'mod', 'exp']
-        weight = {'quota': 4, 'fixed': 2, 'er': 2, 'ba': 1, 'plc': 1, 'cp': 3, 'mod': 3, 'exp': 1}
+        kinds = ['quota', 'fixed', 'er', 'ba', 'plc', 'cp', 'mod', 'exp', 'reuse']
+        weight = {'quota': 4, 'fixed': 2, 'er': 2, 'ba': 1, 'plc': 1, 'cp': 3, 'mod': 3, 'exp': 1, 'reuse': 6}
         bag = [k for k in kinds for _ in range(weight[k])]
         for j in range(n):
             kind = bag[j % len(bag)]
@@ -175,6 +178,54 @@ class H(Harness):
     def gen_mod(self, rnd):
         return {'kind': 'mod', 'seed': rnd.randrange(1 << 30), 'Nc': rnd.randrange(1, 11), 'phi_core': density(rnd),
                 'sats': rnd.randrange(0, 5), 'Ns': rnd.randrange(1, 9), 'phi_sat': density(rnd)}
+
+    # one generator object re-used over several parameter points, one parameter changing at a time
+    REUSE_KEYS = {'er': ['N', 'phi'], 'erk': ['N', 'kmean'], 'ba': ['N', 'M'], 'plc': ['N', 'exponent', 'cutoff'],
+                  'cp': ['Nc', 'phi_core', 'Np', 'phi_per'], 'mod': ['Nc', 'phi_core', 'sats', 'Ns', 'phi_sat'], 'fixed': ['x', 'y']}
+
+    def _reuse_value(self, rnd, which, key, cur):
+        if key in ('phi', 'phi_core', 'phi_per', 'phi_sat'):
+            return density(rnd)
+        if key == 'kmean':
+            return rnd.choice([0, 1, 2, 5])
+        if key == 'exponent':
+            return rnd.choice([2, 2.5, 3])
+        if key == 'cutoff':
+            return rnd.choice([2, 3, 5, 10, 40])
+        if key == 'sats':
+            return rnd.randrange(0, 5)
+        if key == 'M':
+            return rnd.randrange(1, cur['N'])
+        if key == 'N':
+            lo = 2 if which in ('ba', 'plc') else 1
+            return rnd.randrange(max(lo, cur.get('M', 0) + 1), 13 if which == 'plc' else 25)
+        if key in ('Nc', 'Np', 'Ns'):
+            return rnd.randrange(1, 11)
+        return rnd.randrange(100)
+
+    def gen_reuse(self, rnd):
+        which = rnd.choice(['er', 'erk', 'ba', 'plc', 'plc', 'cp', 'mod', 'fixed'])
+        keys = self.REUSE_KEYS[which]
+        cur = {}
+        for k in (['N'] if 'N' in keys else []) + [k for k in keys if k != 'N']:
+            cur[k] = self._reuse_value(rnd, which, k, cur)
+        steps = [dict(cur)]
+        for _ in range(rnd.randrange(1, 4)):
+            for _try in range(20):
+                k = rnd.choice(keys)
+                v = self._reuse_value(rnd, which, k, cur)
+                if v != cur[k]:
+                    cur[k] = v
+                    break
+            steps.append(dict(cur))
+        c = {'kind': 'reuse', 'seed': rnd.randrange(1 << 30), 'which': which, 'limit': rnd.choice([None, None, 1, 2, 3]), 'steps': steps}
+        if which == 'plc':
+            c['ints'] = [rnd.choice([0, 0, 0, 1, 1, 2, 3, 5, 9, 98, 99, rnd.randrange(130)]) for _ in range(400)]
+        if which == 'fixed':
+            n = rnd.randrange(1, 7)
+            c['nodes'] = rnd.sample(range(0, 30), n)
+            c['edges'] = [[a, b] for a, b in itertools.combinations(c['nodes'], 2) if rnd.random() < 0.5]
+        return c
 
     def gen_exp(self, rnd):
         which = rnd.choice(['fixed', 'graph', 'er', 'ba', 'plc', 'cp', 'mod'])
@@ -420,6 +471,107 @@ class H(Harness):
             obs['core'] = list(MN.coreSubNetwork(g).nodes())
         return obs
 
+    # .... one generator object re-used
+    def _reuse_make(self, case, limit):
+        from epydemic import (FixedNetwork, ERNetwork, BANetwork, PLCNetwork, CorePeripheryNetwork as CP, ModularNetwork as MN)
+        w = case['which']
+        if w == 'fixed':
+            proto = networkx.Graph()
+            proto.add_nodes_from(case['nodes'])
+            proto.add_edges_from([tuple(e) for e in case['edges']])
+            return FixedNetwork(proto, limit=limit)
+        cls = {'er': ERNetwork, 'erk': ERNetwork, 'ba': BANetwork, 'plc': PLCNetwork, 'cp': CP, 'mod': MN}[w]
+        return cls(limit=limit)
+
+    def _reuse_params(self, case, st):
+        from epydemic import (ERNetwork, BANetwork, PLCNetwork, CorePeripheryNetwork as CP, ModularNetwork as MN)
+        w = case['which']
+        if w == 'er':
+            return {ERNetwork.N: st['N'], ERNetwork.PHI: st['phi']}
+        if w == 'erk':
+            return {ERNetwork.N: st['N'], ERNetwork.KMEAN: st['kmean']}
+        if w == 'ba':
+            return {BANetwork.N: st['N'], BANetwork.M: st['M']}
+        if w == 'plc':
+            return {PLCNetwork.N: st['N'], PLCNetwork.EXPONENT: st['exponent'], PLCNetwork.CUTOFF: st['cutoff']}
+        if w == 'cp':
+            return {CP.N_core: st['Nc'], CP.PHI_core: st['phi_core'], CP.N_per: st['Np'], CP.PHI_per: st['phi_per']}
+        if w == 'mod':
+            return {MN.N_core: st['Nc'], MN.PHI_core: st['phi_core'], MN.SATELLITES: st['sats'], MN.N_sat: st['Ns'], MN.PHI_sat: st['phi_sat']}
+        return dict(st)
+
+    def _reuse_seed(self, case, j):
+        sd = case['seed'] + 7919 * j
+        pyrandom.seed(sd)
+        numpy.random.seed(sd % (1 << 32))
+        script = {'integers': list(case['ints'])} if case.get('ints') else None
+        return install(Oracle(seed=sd, script=script))
+
+    @staticmethod
+    def _graph_view(g):
+        if g is None:
+            return None
+        return {'nodes': [[n, sorted((str(k), v) for k, v in d.items())] for n, d in g.nodes(data=True)],
+                'edges': sorted(list(norm(e)) for e in g.edges())}
+
+    def run_reuse(self, case):
+        import epydemic.plc_generator as PM
+        import mpmath
+        gen = self._reuse_make(case, case['limit'])
+        steps = []
+        last_plc = None
+        for j, st in enumerate(case['steps']):
+            params = self._reuse_params(case, st)
+            rec = {}
+            real_cm = PM.configuration_model
+
+            def cm(ns, **kw):
+                rec['ns'] = list(ns)
+                return real_cm(ns, **kw)
+
+            one = {'exception': None}
+            # the re-used object
+            orc = self._reuse_seed(case, j)
+            with patched(PM, configuration_model=cm):
+                try:
+                    r = gen.set(params)
+                    g = gen.generate()
+                    one['set_returns_self'] = r is gen
+                    one['reused'] = self._graph_view(g)
+                except Exception as e:      # observable
+                    one['exception'] = 'reused: ' + type(e).__name__ + ': ' + str(e)
+            log = list(orc.log)
+            ns = rec.get('ns')
+            # a fresh object, same parameters, same random sources
+            self._reuse_seed(case, j)
+            try:
+                one['fresh'] = self._graph_view(self._reuse_make(case, None).set(dict(params)).generate())
+            except Exception as e:
+                one['fresh_exception'] = type(e).__name__ + ': ' + str(e)
+                one['fresh'] = None
+            if case['which'] == 'plc' and ns is not None and one['exception'] is None:
+                last_plc = (st, log, ns)
+            steps.append(one)
+        obs = {'steps': steps, 'plc': None}
+        if last_plc is not None:
+            st, log, ns = last_plc
+            evs = []
+            j = 0
+            while j < len(log):
+                e = log[j]
+                if e[0] == 'integers' and e[1] == 1:
+                    evs.append(['k', e[3], log[j + 1][1]]); j += 2
+                elif e[0] == 'integers':
+                    evs.append(['i', e[3]]); j += 1
+                else:
+                    raise AssertionError('unexpected oracle call %r' % (e,))
+            alpha, kappa = st['exponent'], st['cutoff']
+            C = mpmath.polylog(alpha, math.exp(-1.0 / kappa))
+            obs['plc'] = {'N': st['N'], 'evs': evs, 'ns': ns,
+                          'ptab': [mpf_fraction((pow(k + 0.0, -alpha) * math.exp(-(k + 0.0) / kappa)) / C) for k in range(1, 100)]}
+        obs['stats'] = {'reuse_' + case['which']: 1, 'reuse_steps': len(steps)}
+        return obs
+
     # .... topology marker
     def run_exp(self, case):
         import epyc
@@ -611,6 +763,28 @@ class H(Harness):
             v.append({'signature': 'mod-core-link-flags', 'detail': {'flagged': sorted(n for n in flag if flag[n]), 'endpoints': sorted(ends)}})
         return v
 
+    def d_reuse(self, case, obs):
+        v = []
+        limit = case['limit']
+        for j, (st, one) in enumerate(zip(case['steps'], obs['steps'])):
+            if one['exception'] or one.get('fresh_exception'):
+                v.append({'signature': 'generate-raised', 'detail': {'step': j, 'params': st, 'reused': one['exception'], 'fresh': one.get('fresh_exception')}})
+                continue
+            if not one['set_returns_self']:
+                v.append({'signature': 'quota-protocol', 'detail': 'set() did not return the generator'})
+            allowed = limit is None or j < limit
+            if not allowed:
+                if one['reused'] is not None:
+                    v.append({'signature': 'quota-limit', 'detail': 'limit %d but request %d was answered' % (limit, j + 1)})
+                continue
+            if one['reused'] is None:
+                v.append({'signature': 'quota-early-stop', 'detail': 'limit %r, request %d not answered' % (limit, j + 1)})
+            elif one['reused'] != one['fresh']:
+                v.append({'signature': 'reused-generator-ignores-latest-parameters',
+                          'detail': {'which': case['which'], 'step': j, 'params': st, 'previous': case['steps'][j - 1] if j else None,
+                                     'reused': one['reused'], 'fresh': one['fresh']}})
+        return v
+
     def d_exp(self, case, obs):
         if obs['exception']:
             return [{'signature': 'generate-raised', 'detail': obs['exception']}]
@@ -666,6 +840,12 @@ class H(Harness):
                       L.lst(['(%s, %s)' % (L.nat(ch[2 * j][1]), L.nat(ch[2 * j + 1][1])) for j in range(S)])))
             nodes = L.lst(['(%s, %s, %s)' % (L.z(n), L.z(o if o is not None else -1), L.b(f is True)) for n, o, f in obs['nodes']])
             return 'CMod %s %s %s' % (inp, nodes, el(obs['edges']))
+        if k == 'reuse':
+            pl = obs.get('plc')
+            if not pl:
+                return None
+            evs = L.lst(['PK %s %s' % (L.nat(e[1]), L.q(e[2])) if e[0] == 'k' else 'PIdx %s' % L.nat(e[1]) for e in pl['evs']])
+            return 'CPlc %s %s %s %s' % (L.lst(pl['ptab'], L.q), L.nat(pl['N']), evs, L.lst(pl['ns'], L.nat))
         if k == 'plc':
             if obs['exception'] or obs['ns'] is None:
                 return 'CPlc [] 0 [] [7%nat]'
@@ -697,6 +877,8 @@ class H(Harness):
             key = obs.get('g') is not None and (case['sats'] >= 1 or len(obs['comps'][0]) >= 2)
         elif k == 'plc':
             key = any(e[0] == 'k' for e in obs['evs']) and len(obs['evs']) > case['N']
+        elif k == 'reuse':
+            key = sum(1 for o in obs['steps'] if o.get('reused') is not None) >= 2
         else:
             key = True
         if not key:
@@ -705,5 +887,5 @@ class H(Harness):
         return str(sorted(c.items()))
 
     def sample_view(self, case, obs):
-        o = {k: v for k, v in obs.items() if k not in ('g', 'graphs', 'ptab', 'evs', 'after')}
+        o = {k: v for k, v in obs.items() if k not in ('g', 'graphs', 'ptab', 'evs', 'after', 'plc', 'steps')}
         return {'case': {k: v for k, v in case.items() if k != 'ints'}, 'observed': o}
